@@ -419,6 +419,13 @@ FoldSeeds == {
 \* the error must be reported as an error value (any class) wherever the expression stands; the controls must be
 \* accepted wherever they stand.
 CheckerSeeds == {
+  FoldSeed(<<"(", "(", ")", "->", "any", "{", "a", ":=", "if", "true", "{", "1", "}", "else", "{", "1.5", "}", ";", "b", ":=", "if", "false", "{", "1", "}", "else", "{", "1.5", "}", ";", "return", "a", "*", "b", "}", ")">>, "Rejected"),
+  FoldSeed(<<"(", "(", ")", "->", "any", "{", "a", ":=", "if", "true", "{", "1", "}", "else", "{", "1.5", "}", ";", "b", ":=", "if", "false", "{", "1", "}", "else", "{", "1.5", "}", ";", "return", "a", "<", "b", "}", ")">>, "Rejected"),
+  FoldSeed(<<"(", "(", "a", ":", "int", "|", "float", ",", "b", ":", "int", "|", "float", ")", "->", "any", "{", "return", "a", "-", "b", "}", ")">>, "Rejected"),
+  FoldSeed(<<"(", "(", "a", ":", "int", "|", "float", ",", "b", ":", "int", "|", "float", ")", "->", "any", "{", "return", "a", "**", "b", "}", ")">>, "Rejected"),
+  FoldSeed(<<"(", "(", "c", ":", "mut", "(", "int", "|", "float", ")", ",", "b", ":", "int", "|", "float", ")", "->", "any", "{", "return", "c", "-=", "b", "}", ")">>, "Rejected"),
+  FoldSeed(<<"(", "(", "a", ":", "int", "|", "string", ",", "b", ":", "int", "|", "string", ")", "->", "any", "{", "return", "a", "+", "b", "}", ")">>, "Rejected"),
+  FoldSeed(<<"(", "(", "a", ":", "int", "|", "bool", ",", "b", ":", "int", "|", "bool", ")", "->", "any", "{", "return", "a", "&", "b", "}", ")">>, "Rejected"),
   FoldSeed(<<"(", "(", "p", ":", "(", "int", ",", "int", ")", "|", "(", "int", ",", "int", ",", "int", ")", ")", "->", "any", "{", "return", "p", ".", "2", "}", ")">>, "Rejected"),
   FoldSeed(<<"(", "(", "p", ":", "(", "int", ",", "int", ")", "|", "(", "int", ",", "int", ",", "int", ")", ")", "->", "any", "{", "n", ":=", "p", ".", "2", ";", "return", "1", "}", ")">>, "Rejected"),
   FoldSeed(<<"(", "(", "p", ":", "(", "int", ",", "int", ")", "|", "(", "int", ",", "int", ",", "int", ")", ")", "->", "any", "{", "return", "p", ".", "2", "+", "1", "}", ")">>, "Rejected"),
